@@ -399,6 +399,83 @@ def o_timeline(t, base):
     raise ValueError(t)
 
 
+def oracle_mono(case):
+    """Pmono by its documented meaning: ONE synth for the whole pattern (articulate = false) — started
+    by the first event, updated by the later ones, released at the end; with articulate = true the synth
+    is kept only while an event's sustain reaches the next event. Returns (commands, end time)."""
+    lat, defs, prog = F(case['lat']), case['defs'], case['prog']
+    t0, (_, inst, artic, b) = F(prog[1]), prog[2]
+    rows = o_events_bind(b, ({}, set()))
+    msgs, t = [], t0
+    ids = iter(range(1000, 100000))
+    held = None                      # (id, names, has_gate)
+
+    def start(e):
+        e = dict(e, instrument=inst)
+        on, off = o_note(e, set(), t, lat, defs)
+        desc = next((d for d in defs if d['name'] == inst), None)
+        has_gate = ('gate' in desc['controls']) if desc else (e['has_gate'] if isinstance(e.get('has_gate'), bool) else True)
+        return e, on, off, has_gate
+
+    def set_args(e, names):
+        out = []
+        freq = o_freq(e) * float(o_num(e, 'harmonic', 1)) + float(o_num(e, 'detune', 0))
+        for nm in names:
+            if nm == 'freq':
+                out += [('s', nm), ('n', freq)]
+            elif nm in e:
+                x = e[nm]
+                if isinstance(x, bool) or isinstance(x, F):
+                    out += [('s', nm), ('n', float(x))]
+                elif isinstance(x, str):
+                    out += [('s', nm), ('s', x)]
+                else:
+                    raise Raise(nm)
+            elif nm == 'amp':
+                out += [('s', nm), ('n', o_amp(e))]
+            elif nm in ('pan', 'out'):
+                out += [('s', nm), ('n', 0.0)]
+            else:
+                raise Raise(nm)
+        return out
+
+    def release(when, h):
+        if h[2]:
+            msgs.append([float(when + lat), '/n_set', ('n', float(h[0])), ('s', 'gate'), ('n', 0.0)])
+        else:
+            msgs.append([float(when + lat), '/n_free', ('n', float(h[0]))])
+
+    for e, rests in rows:
+        if rests:
+            raise Raise('rests in Pmono: outside the oracle')
+        d = o_delta(e)
+        if d is None:
+            raise Raise('delta')
+        if held is None:
+            e1, on, off, has_gate = start(e)
+            names = [p[1] for p in on[4][::2]]
+            if not artic or o_sustain(e1) >= d:
+                nid = next(ids)
+                msgs.append([on[0], '/s_new', ('s', on[1]), ('n', float(nid)), ('n', on[2]), ('n', on[3])] + on[4])
+                held = (nid, names, has_gate)
+            else:                                   # an ordinary note of its own
+                nid = next(ids)
+                msgs.append([on[0], '/s_new', ('s', on[1]), ('n', float(nid)), ('n', on[2]), ('n', on[3])] + on[4])
+                if off is not None:
+                    msgs.append([off, '/n_set', ('n', float(nid)), ('s', 'gate'), ('n', 0.0)])
+        else:
+            if artic and o_sustain(e) < d:
+                release(t + o_sustain(e), held)
+                msgs.append([float(t + lat), '/n_set', ('n', float(held[0]))] + set_args(e, held[1]))
+                held = None
+            else:
+                msgs.append([float(t + lat), '/n_set', ('n', float(held[0]))] + set_args(e, held[1]))
+        t += d
+    if held is not None:
+        release(t, held)
+    return msgs, t
+
+
 def oracle_notes(case):
     lat, defs, prog = F(case['lat']), case['defs'], case['prog']
     t0 = F(prog[1])
@@ -609,6 +686,32 @@ class Gen:
         r.shuffle(b)
         return ['bind', b]
 
+    def mono(self, defs):
+        """Pmono(instrument, pairs, articulate): no rests, no harmonic / detune (play() folds them into the
+        stored freq), legato / sustain around the slur boundary sustain == delta."""
+        r = self.r
+        n = r.randint(1, 6)
+        ks = [k for k in dict.fromkeys(self.keys()) if k not in ('harmonic', 'detune', 'delta', 'sustain', 'legato',
+                                                                'stretch', 'dur', 'send_gate', 'node_id')]
+        b = []
+        for k in ks:
+            if k in ('scale', 'has_gate', 'add_action', 'group') or r.random() < 0.4:
+                b.append([k, ['cyc', self.key_val(k)]])
+            else:
+                b.append([k, ['fin'] + self.seq(k, n + r.choice([0, 1, 2]), False)])
+        durs = [r.choice(['1/2', '1', '1/4', '3/2']) for _ in range(n)]
+        b.append(['dur', ['fin'] + [['n', x] for x in durs]])
+        x = r.random()
+        if x < 0.45:
+            b.append(['legato', ['fin'] + [['n', r.choice(['1', '1', '1/2', '5/4', '3/4'])] for _ in range(n)]])
+        elif x < 0.75:
+            b.append(['sustain', ['fin'] + [['n', d if r.random() < 0.5 else r.choice(['1/4', '1', '2'])] for d in durs]])
+        if r.random() < 0.2:
+            b.append(['stretch', ['cyc', ['n', r.choice(['1/2', '2'])]]])
+        r.shuffle(b)
+        inst = r.choice(defs)['name'] if defs and r.random() < 0.8 else 'nodesc'
+        return ['mono', inst, r.random() < 0.6, b]
+
     def pat(self, defs, d=2):
         r = self.r
         x = r.random()
@@ -638,7 +741,7 @@ class Check(common.Check):
         'chain_degree_to_freq', 'chain_degree_to_midinote_steps', 'chain_note_to_midinote_steps',
         'player_plays_timetable', 'player_time_prefix_sums',
         'ppar_preserves_child_timelines', 'pdur_total', 'pdur_passes_prefix', 'player_ids_fresh',
-        'replay_ids_fresh')]
+        'replay_ids_fresh', 'mono_held_single_node', 'mono_one_synth')]
     N_QUICK = 2000
     N_THOROUGH = 40000
     ASSUMPTIONS = [
@@ -646,9 +749,10 @@ class Check(common.Check):
         'taken from the score main.process() renders (C05/C07 cover them)',
         'numbers are exact rationals in the model; real floats are compared with relative tolerance 1e-9 '
         '(legato 0.8 and the transcendental leaves midicps / cpsmidi / dbamp are not exact in binary64)',
-        'only 12-tone equal temperament scales (Tuning.et(12)); other tunings need log2 of the octave ratio',
+        'scales over equal tunings Tuning.et(n) (octave ratio 2) only; other ratios need log2 of the ratio',
+        'Pmono only at top level, without rests and without harmonic / detune keys',
         'event values: numbers, Rest(number), strings, Scale, bool, None; tuple-valued (arrayed) keys, '
-        'function-valued keys, MIDI events, Pmono, variants, strum/lag/timing_offset are not modelled',
+        'function-valued keys, MIDI events, variants, strum/lag/timing_offset are not modelled',
         'Pbind value streams are finite lists or cycles (C13 covers the value patterns themselves); every '
         'Pbind has at least one finite key; Pchain only with a Pbind of constants on the left',
         'a Rest is never given for the key delta itself (Ppar / Pdur overwrite delta with a number)',
@@ -664,7 +768,9 @@ class Check(common.Check):
                 'has_gate, custom controls; instrument = a generated def, an unknown name or the default), 4 % '
                 'with a string where a number is needed, 6 % with an explicit node_id; 45 % patterns: Pbind (1-6 events, keys as finite '
                 'lists / cycles / constants, 12 % Rest values), Ppar (1-3 children, nested), Pdur (dyadic '
-                'duration, tolerance default/0/dyadic), Pdelta, Pbind<>p, depth <= 3. Played from a routine in '
+                'duration, tolerance default/0/dyadic), Pdelta, Pbind<>p, depth <= 3; 13 % top-level Pmono '
+                '(60 % articulate, legato / sustain around sustain == delta); half of the scales over '
+                'Tuning.et(n), n in {5,7,19,24,31}, with root / gtranspose. Played from a routine in '
                 'NRT; the /s_new, /n_set, /n_free entries of the score and the time of the last wake-up are '
                 'compared with the Lean driver and with an independent oracle (each child keeps its own '
                 'timeline; notes = union of timelines; Pdur cuts the timeline). Non-trivial: >= 2 commands')
@@ -683,6 +789,8 @@ class Check(common.Check):
             ev = [kv for kv in g.event(defs) if kv[0] not in ('harmonic', 'detune') and kv[1][0] != 's' or kv[0] in ('instrument', 'add_action')]
             plays = [[g.dy(0, 2, (1, 2, 4)), rng.choice(['same', 'same', 'copy'])] for _ in range(rng.randint(1, 3))]
             prog = ['replay', t0, ev, plays]
+        elif x < 0.68:
+            prog = ['pat', t0, g.mono(defs)]
         else:
             prog = ['pat', t0, g.pat(defs)]
         return {'lat': lat, 'defs': defs, 'prog': prog}
@@ -707,6 +815,9 @@ class Check(common.Check):
             p = c['prog']
             if p[0] == 'event':
                 lines.append(f'event {p[1]} {sx_ev(p[2])}')
+            elif p[0] == 'pat' and p[2][0] == 'mono':
+                m = p[2]
+                lines.append(f'mono {p[1]} {m[1]} {int(bool(m[2]))} {sx_binds(m[3])}')
             elif p[0] == 'replay':
                 lines.append(f'replay {p[1]} {sx_ev(p[2])} ({" ".join(d for d, _ in p[3])})')
             else:
@@ -758,6 +869,20 @@ class Check(common.Check):
         return None
 
     def oracle(self, case, out):
+        if case['prog'][0] == 'pat' and case['prog'][2][0] == 'mono':
+            try:
+                exp, end = oracle_mono(case)
+            except Raise:
+                return None
+            if out['errors'] != 0 or out['build_error']:
+                return {'what': f'playing a Pmono raised ({out.get("error_text")})', 'signature': 'play-raises:mono'}
+            got = canon_msgs(self.impl_msgs(out))
+            if not same_msgs(got, canon_msgs(exp)):
+                return {'what': f'Pmono sent {got}', 'signature': 'mono-commands', 'expected': repr(canon_msgs(exp))[:1500]}
+            if out.get('end') is not None and not close(float(out['end']), float(end)):
+                return {'what': f'the pattern ends at {out["end"]}, its timeline ends at {float(end)}',
+                        'signature': 'end-time:mono'}
+            return None
         try:
             notes, end = oracle_notes(case)
         except Raise:
@@ -844,6 +969,9 @@ class Check(common.Check):
                         if len(vals) > 1:
                             yield ['bind', b[:i] + [[key, [sq[0], vals[0]]]] + b[i + 1:]]
                             yield ['bind', b[:i] + [[key, [sq[0]] + vals[1:] + (['seq'] if sq[-1] == 'seq' else [])]] + b[i + 1:]]
+                elif k == 'mono':
+                    for c in pc(['bind', t[3]]):
+                        yield t[:3] + [c[1]]
                 elif k == 'par':
                     for c in t[1:]:
                         yield c
@@ -887,6 +1015,9 @@ class Check(common.Check):
         h = {'event': 0, 'pat': {}, 'msgs': 0, 'errors': 0, 'keys': {}}
         def walk(t):
             h['pat'][t[0]] = h['pat'].get(t[0], 0) + 1
+            if t[0] == 'mono':
+                h['pat']['mono-articulate'] = h['pat'].get('mono-articulate', 0) + bool(t[2])
+                return
             for x in t[1:]:
                 if isinstance(x, list) and x and isinstance(x[0], str) and x[0] in ('bind', 'par', 'dur', 'delta', 'chain'):
                     walk(x)
